@@ -153,6 +153,12 @@ def check(case, ctx):
         a = lib.call(p.mass, s_rule)
         if a[0] != 'ok' or not lib.close(a[1], ref, 1e-5):
             ctx.fail('mass-rule-vs-reference', ref, _v(a), **info)
+        # ... and of the composition path (composition + residual shift) of the rule form and of the explicit form
+        for form in (s_rule, s_exp):
+            cm = lib.call(lambda: (lambda c_d: p.chem_mass(c_d[0]) + c_d[1])(p.comp_mass(form)))
+            ctx.evals += 1
+            if cm[0] != 'ok' or not lib.close(cm[1], ref, 1e-4):
+                ctx.fail('composition-path-vs-reference', ref, _v(cm), form=form, **info)
         # fragments
         fa = lib.call(p.fragment, s_rule, ['b', 'y', 'a', 'c', 'x', 'z'], [1, 2])
         fb = lib.call(p.fragment, s_exp, ['b', 'y', 'a', 'c', 'x', 'z'], [1, 2])
